@@ -124,6 +124,18 @@ def dflt(sort):
     return _dflt[k]
 
 
+SeqDomain = seq_sort(DomainRef)
+fac_domains = z3.Function("Factor.domains", FactorRef, SeqDomain)
+dom_size = z3.Function("Domain.size", DomainRef, z3.IntSort())
+# attributes / nullary methods of opaque objects: (type, name) -> (result type, term builder)
+OPAQUE_ATTRS = {
+    ("Factor", "domains"): (("seq", "Domain"), lambda t: fac_domains(t)),
+    ("Factor", "arity"): ("int", lambda t: SeqDomain.len(fac_domains(t))),
+}
+OPAQUE_METHODS = {
+    ("Domain", "size"): ("int", lambda t: dom_size(t)),
+}
+
 _lits: Dict[str, Any] = {}
 
 
